@@ -128,8 +128,6 @@ def _eval_seed(seed, n, mode, spelling):
             files[twin] = data
             expect[twin] = list(range(n))
     flag = "--path-exclude" if mode == "exclude" else "--path-include"
-    if desc:
-        pats = list(reversed(pats))
     obs = run(files, [flag, ",".join(pats)] if pats else [], list(files))
     if obs.exit != 0:
         return out + [(f"{tag}|{mode}|exit", f"exit {obs.exit}: {obs.stderr[-1][-200:]}")], {"usable": True}
